@@ -12,6 +12,12 @@
 //! `yv-g06 random --runs N --len L --out TRACE.ndjson [--threads T]`
 //!     impl -> spec: N seeded random command lines x operation sequences are
 //!     run; the observations are written for Trace_SetOpts to judge.
+//! `yv-g06 real --in GEN.ndjson --out MISMATCHES.ndjson`
+//!     spec -> impl through the true entry point: the catalogue of command
+//!     lines (those started under the name `yash`) is run with
+//!     `yash_cli::main()` on the real OS; the script prints $-, $#, $0 and
+//!     the positional parameters with /bin/echo.  Also observed here (and
+//!     only here): the exit status of the shell for an invalid command line.
 //! `yv-g06 redo --in RECORDS.ndjson --out OUT.ndjson`
 //!     re-runs mismatch records (compared again) or random records
 //!     (recorded again for TLC).
@@ -296,6 +302,17 @@ fn redo(args: &[String]) {
             let ops: Vec<Op> = v["ops"].as_array().map(|a| a.iter().map(Op::from_json).collect()).unwrap_or_default();
             let rec = record(v["id"].as_u64().unwrap_or(0) as usize, &strs(&v["argv"]), &ops);
             writeln!(out, "{rec}").unwrap();
+        } else if v["what"] == "real" {
+            let c = json!({"argv": v["argv"], "k": v["k"], "evs": v["exp"]});
+            let (field, seen) = real_case(&c);
+            if field.is_some() {
+                bad += 1;
+            }
+            let text = match &field {
+                None => "as prescribed".to_string(),
+                Some(f) => format!("deviates: {f}"),
+            };
+            writeln!(out, "{}", json!({"argv": v["argv"], "script": REAL_SCRIPT, "verdict": text, "obs": seen})).unwrap();
         } else {
             let argv = strs(&v["argv"]);
             let script = script_of(&strs(&v["prelines"]), &strs(&v["lines"]));
@@ -317,14 +334,165 @@ fn redo(args: &[String]) {
     println!("{}", json!({"records": n, "bad": bad}));
 }
 
+const REAL_SCRIPT: &str = "/bin/echo \"D=$-\"\n/bin/echo \"N=$#\"\n/bin/echo \"Z=$0\"\nfor a in \"$@\"; do /bin/echo \"A=$a\"; done\n";
+
+/// One command line through `yash_cli::main()` on the real OS.  Returns the
+/// deviating field, if any, and what was seen.
+fn real_case(c: &Value) -> (Option<String>, Value) {
+    use yvcommon::real::{RealCfg, run_real};
+    use yvcommon::shell::FileSpec;
+    let argv = strs(&c["argv"]);
+    let k = c["k"].as_str().unwrap_or("");
+    let fix = |a: &String| -> String {
+        if a == run::CMD_MARK {
+            REAL_SCRIPT.to_string()
+        } else if a == run::SCRIPT_FILE {
+            "script".to_string()
+        } else {
+            a.clone()
+        }
+    };
+    let cfg = RealCfg {
+        args: argv.iter().skip(1).map(fix).collect(),
+        stdin: REAL_SCRIPT.as_bytes().to_vec(),
+        files: vec![FileSpec::Regular { path: "script".into(), content: REAL_SCRIPT.as_bytes().to_vec(), mode: 0o644 }],
+        mirror: false,
+        timeout: std::time::Duration::from_secs(20),
+        env: vec![],
+    };
+    let r = run_real(&cfg);
+    let out = String::from_utf8_lossy(&r.stdout).into_owned();
+    let seen = json!({"status": r.status, "timed_out": r.timed_out, "stdout": out, "stderr": String::from_utf8_lossy(&r.stderr)});
+    if r.timed_out {
+        return (Some("timeout".into()), seen);
+    }
+    let field = match k {
+        "error" => {
+            if r.status == 0 {
+                Some("exit-status")
+            } else if !out.is_empty() {
+                Some("runs-on")
+            } else if r.stderr.is_empty() {
+                Some("no-diagnostic")
+            } else {
+                None
+            }
+        }
+        "info" => {
+            if r.status != 0 {
+                Some("exit-status")
+            } else if out.is_empty() {
+                Some("no-output")
+            } else {
+                None
+            }
+        }
+        _ => {
+            let evs = c["evs"].as_array().cloned().unwrap_or_default();
+            let p = evs.iter().find(|e| e["t"] == "p");
+            match p {
+                None => {
+                    // exec off: nothing runs
+                    if !out.is_empty() {
+                        Some("runs-on")
+                    } else if r.status != 0 {
+                        Some("exit-status")
+                    } else {
+                        None
+                    }
+                }
+                Some(p) => {
+                    let mut d = String::new();
+                    let mut n = String::new();
+                    let mut z = String::new();
+                    let mut a: Vec<String> = vec![];
+                    for l in out.lines() {
+                        if let Some(x) = l.strip_prefix("D=") {
+                            d = x.to_string();
+                        } else if let Some(x) = l.strip_prefix("N=") {
+                            n = x.to_string();
+                        } else if let Some(x) = l.strip_prefix("Z=") {
+                            z = x.to_string();
+                        } else if let Some(x) = l.strip_prefix("A=") {
+                            a.push(x.to_string());
+                        }
+                    }
+                    let mut dd: Vec<String> = d.chars().map(|c| c.to_string()).collect();
+                    dd.sort();
+                    let mut ed = strs(&p["dash"]);
+                    ed.sort();
+                    let pos = strs(&p["pos"]);
+                    let ea0 = p["a0"].as_str().unwrap_or("");
+                    let ea0 = if ea0 == run::SCRIPT_FILE { "script" } else { ea0 };
+                    // $0 is the harness binary when the specification says argv[0]
+                    let a0_known = ea0 != argv[0];
+                    if dd != ed {
+                        Some("dash")
+                    } else if n != pos.len().to_string() {
+                        Some("count")
+                    } else if a != pos {
+                        Some("at")
+                    } else if a0_known && z != ea0 {
+                        Some("arg0")
+                    } else if r.status != 0 {
+                        Some("exit-status")
+                    } else {
+                        None
+                    }
+                }
+            }
+        }
+    };
+    (field.map(|s| s.to_string()), seen)
+}
+
+fn real(args: &[String]) {
+    let path = opt(args, "--in").expect("--in");
+    let mut out = util::open_out(args);
+    let f = std::io::BufReader::new(std::fs::File::open(path).expect("open --in"));
+    let mut n = 0usize;
+    let mut skipped = 0usize;
+    let mut bad = 0usize;
+    let mut kinds: BTreeMap<String, usize> = BTreeMap::new();
+    for l in f.lines() {
+        let l = l.unwrap();
+        if !l.contains("\"fanlines\":[[") {
+            continue;
+        }
+        let v: Value = serde_json::from_str(&l).expect("json");
+        for c in v["starts"].as_array().cloned().unwrap_or_default() {
+            let argv = strs(&c["argv"]);
+            let k = c["k"].as_str().unwrap_or("").to_string();
+            // positional parameters with a newline or the name the shell is started under cannot be chosen here
+            if argv.first().map(|s| s.as_str()) != Some("yash") || k == "unspec" {
+                skipped += 1;
+                continue;
+            }
+            n += 1;
+            *kinds.entry(k.clone()).or_default() += 1;
+            let (field, seen) = real_case(&c);
+            if let Some(field) = field {
+                bad += 1;
+                writeln!(out, "{}", json!({"what": "real", "fam": "real", "argv": argv, "k": k, "prelines": [], "lines": [],
+                                           "exp": c["evs"], "obs": seen, "at": 0, "field": field})).unwrap();
+            }
+        }
+        break;
+    }
+    out.flush().unwrap();
+    println!("{}", json!({"real_cases": n, "skipped": skipped, "mismatches": bad, "kinds": kinds}));
+}
+
 fn main() {
+    yvcommon::real::maybe_child_main();
     let args: Vec<String> = std::env::args().collect();
     match args.get(1).map(|s| s.as_str()) {
         Some("replay") => replay(&args[2..]),
         Some("random") => random(&args[2..]),
         Some("redo") => redo(&args[2..]),
+        Some("real") => real(&args[2..]),
         _ => {
-            eprintln!("usage: yv-g06 replay|random|redo ...");
+            eprintln!("usage: yv-g06 replay|random|real|redo ...");
             std::process::exit(2);
         }
     }
